@@ -14,6 +14,7 @@ import base64
 import json
 import os
 import random
+import zlib
 import time
 
 from vlib import core
@@ -92,7 +93,10 @@ class Runner:
         """cases: {cid: (M, prefs)} -> ({cid: result} for disagreeing cases, stats)"""
         frames, lean, keys, texts = [], [], {}, {}
         for cid, (M, prefs) in cases.items():
-            xml = m.XmlText(None).render(M)
+            # every third model is written with the text-layer variations of C04 (CDATA sections, character references, comments, blanks,
+            # attribute order): the XML front end must deliver the same texts to the grammar as the plain rendering
+            xv = random.Random(zlib.crc32(cid.encode()) * 31 + len(M["templates"])) if zlib.crc32(cid.encode()) % 3 == 0 else None
+            xml = m.XmlText(xv).render(M)
             vary = random.Random(len(xml) * 7919 + len(cid)) if M.get("vary_xta") else None
             xta = m.render_xta(M, prefs, vary)
             texts[cid] = (xml, xta)
